@@ -1,0 +1,7 @@
+//go:build !verif
+// +build !verif
+
+package utxo
+
+// verifYield is a no-op without the verif build tag (inlined away).
+func verifYield(string) {}
